@@ -104,3 +104,22 @@ Theorem C03_c_use_pruning_keeps_value :
                  (Z.of_nat p1b) (Z.of_nat p1e) (Z.of_nat p2b) (Z.of_nat p2e) true window =
   ((if too_long u (scal f1) (scal f2) then RPlain Inf else RSqrt (dtw_value u (scal f1) (scal f2))), true).
 Proof. exact c_dtw_distance_pruned_exact. Qed.
+
+(* dtw.distance AS REGENERATED (Gen_pydist.v, see C01_py_distance_as_written) with a bound B = adj_max_dist (max_dist
+   in the internal representation, or the Euclidean bound with use_pruning): the value cut at B, for every B other
+   than exactly 0 (dtw.distance tests the truthiness of adj_max_dist before the final comparison). *)
+From DV Require Import PyDistGen.
+From DVGen Require Import Gen_pydist.
+
+Theorem C03_py_distance_as_written_bounded :
+  forall (u : usettings) (s1 s2 : list point) (B : cost) (idist : Z -> Z -> cost) (f1 f2 : list Z) ced mld mld_some,
+  (1 <= eff_window u (length s1) (length s2))%Z -> (1 <= length s1)%nat -> (1 <= length s2)%nat ->
+  (forall i j, (i < length s1)%nat -> (j < length s2)%nat ->
+     idist (Z.of_nat i) (Z.of_nat j) = Fin (pdist (u_inner u) (nth i s1 []) (nth j s2 []))) ->
+  pen_ok u -> (psi_1b u < length s1 \/ psi_2e u < length s2)%nat -> B <> Fin 0 ->
+  py_distance ced idist f1 (Z.of_nat (length s1)) f2 (Z.of_nat (length s2)) false B mld mld_some (adj_max_step u) (Fin (adj_penalty u))
+              (Z.of_nat (psi_1b u)) (Z.of_nat (psi_1e u)) (Z.of_nat (psi_2b u)) (Z.of_nat (psi_2e u))
+              (eff_window u (length s1) (length s2)) =
+  ((if mld_some && cltb mld (Fin (Z.abs (Z.of_nat (length s1) - Z.of_nat (length s2)))) then RPlain Inf
+    else RSqrt (bounded B (dtw_value u s1 s2))), true).
+Proof. exact py_distance_spec. Qed.
